@@ -84,6 +84,125 @@ def gen_producer(rng, sid):
     return sc
 
 
+# ---- task calculus correspondence (model/C19_Tasks.v, gen/CloseShapes.v) -------------------------------------
+def _shapes():
+    import sys
+    from common import REPO
+    tr = os.path.join(VERIF, "translator")
+    if tr not in sys.path:
+        sys.path.insert(0, tr)
+    import close2gallina
+    return close2gallina.shapes(REPO)
+
+
+def _tstate(obs, shape):
+    """One observed task [qualname, state, line] -> Gallina tstate (None = the line is no await point)."""
+    _, st, line = obs
+    if st == "unstarted":
+        return "TUnstarted"
+    if st == "ok":
+        return "TDoneOk"
+    if st == "exc":
+        return "TDoneExc"
+    if st == "cancelled":
+        return "TDoneCancelled"
+    for i, (a, b) in enumerate(shape["lines"]):
+        if a <= line <= b:
+            return f"TParked {i} false"
+    return None
+
+
+def close_env(snap, shapes):
+    """Observed snapshot -> (program name, list of 9 member lists as Gallina text, problems)."""
+    problems = []
+    by = {sh["slot"]: sh for sh in shapes}
+    env = []
+    joined = snap.get("joined")
+    for sh in shapes:
+        slot = sh["slot"]
+        if slot in ("pending_fetch", "pending_update"):
+            members = [o for o in snap.get("pending", []) if o[0] == sh["qualname"]]
+        else:
+            members = snap.get(slot, [])
+        if joined is not None and slot != "coordination":
+            # exact: the state each task was in when the close procedure called cancel() on it; the tasks of the slot
+            # that were finished at the stop() call and never cancelled (skipped by a done() guard) keep that state
+            members = [o for o in joined if o[0] == sh["qualname"]] + \
+                      [o for o in members if o[1] in ("ok", "exc", "cancelled")
+                       and not any(j[0] == o[0] for j in joined)]
+        terms = []
+        for o in members:
+            if slot not in ("pending_fetch", "pending_update") and o[0] != sh["qualname"]:
+                problems.append(f"slot {slot} holds a task running {o[0]}")
+                continue
+            t = _tstate(o, by[slot])
+            if t is None:
+                problems.append(f"{o[0]} suspended at line {o[2]}, which is not one of its await points {sh['lines']}")
+                continue
+            terms.append(t)
+        env.append("[" + "; ".join(terms) + "]")
+    known = {by["pending_fetch"]["qualname"], by["pending_update"]["qualname"]}
+    for o in snap.get("pending", []) + (joined or []):
+        if o[0] not in known and not any(o[0] == sh["qualname"] for sh in shapes):
+            problems.append(f"pending task running {o[0]}")
+    prog = {"group": "consumer_group_stop", "nogroup": "consumer_nogroup_stop", "producer": "producer_stop"}[snap["kind"]]
+    return prog, "[" + "; ".join(env) + "]", problems
+
+
+def close_correspondence(ck, cases):
+    """cases: (case id, snapshot, actual in {'Completed','Escaped','Hung'}, replay).  The model's run of the translated
+    procedure from the observed environment must give the actual outcome, and the environment must lie in the state
+    space the theorems quantify over."""
+    if not cases:
+        ck.obligation("correspondence:stop-outcome-predicted-by-task-calculus", False, "no stop() call was observed")
+        return
+    shapes = _shapes()
+    body = ["Import CloseShapes."]
+    rows = []
+    bad = []
+    for cid, snap, actual, replay in cases:
+        if "error" in snap:
+            bad.append(f"{cid}: observation failed: {snap['error']}")
+            continue
+        prog, env, problems = close_env(snap, shapes)
+        if problems:
+            bad.append(f"{cid}: " + "; ".join(problems))
+            continue
+        body.append(f"Eval vm_compute in (env_ok slots {env}, run slots {env} {prog}).")
+        rows.append((cid, snap, actual, replay, env, prog))
+    from common import parse_eval_outputs
+    ok, out = ck.coq_eval("c19_close", ["C19_Tasks", "CloseShapes"], "\n".join(body) + "\n")
+    vals = parse_eval_outputs(out) if ok else []
+    if not ok or len(vals) != len(rows):
+        ck.obligation("correspondence:stop-outcome-predicted-by-task-calculus", False,
+                      f"evaluation inside Coq failed ({len(vals)} of {len(rows)} results): {out[-300:]}")
+        return
+    hist = {}
+    outside = []
+    for (cid, snap, actual, replay, env, prog), v in zip(rows, vals):
+        v = str(v)
+        inside = "true" in v.split(",")[0]
+        pred = "Completed" if "Completed" in v else "Escaped" if "Escaped" in v else "Hung"
+        hist[f"{prog}:{pred}/{actual}"] = hist.get(f"{prog}:{pred}/{actual}", 0) + 1
+        for sl, ms in snap.items():
+            if isinstance(ms, list):
+                for o in ms:
+                    k = f"state:{o[0].split('.')[-1]}:{o[1]}" + (f"@{o[2]}" if o[1] == "parked" else "")
+                    hist[k] = hist.get(k, 0) + 1
+        if not inside:
+            outside.append(f"{cid}: observed task states outside the model's state space: {env}")
+        if pred != actual:
+            bad.append(f"{cid}: model predicts {v}, stop() actually {actual}; env {env}")
+            if actual != "Completed":
+                continue      # the monitor has reported the run itself as a violation with its scenario
+    ck.extra["close_calculus"] = {"cases": len(rows), "histogram": dict(sorted(hist.items())),
+                                  "shapes": [{k: sh[k] for k in ("slot", "lines", "classes")} for sh in shapes]}
+    ck.obligation("correspondence:stop-outcome-predicted-by-task-calculus", not bad,
+                  f"{len(rows)} stop() calls; " + ("; ".join(bad[:4]) if bad else "all outcomes as predicted"))
+    ck.obligation("correspondence:observed-task-states-inside-state-space", not outside,
+                  "; ".join(outside[:4]) if outside else f"{len(rows)} environments, all inside")
+
+
 def run(ck: Check):
     ck.trusted += [
         "Coq 8.16.1 kernel",
@@ -97,6 +216,7 @@ def run(ck: Check):
                       "reply) x group / group-less consumer (optionally a second member joining around the stop) and "
                       "producers stopped with unresolved batches; one evaluation = one run; non-trivial = the cluster was "
                       "not healthy or a rebalance overlapped the stop")
+    ck.regenerate(["CloseShapes"])
     ck.coq_props("C19")
     rng = random.Random(ck.seed * 911 + 19)
     n = ck.n(72, 1200)
@@ -146,6 +266,8 @@ def run(ck: Check):
     for i in range(ck.n(18, 200)):
         sc = conssim.old_broker(gen_consumer(rng_old, 700000 + i), rng_old)
         scs.append(sc)
+    for sc in scs:
+        sc["obs_cancel"] = True
     results = conssim.run_scenarios(scs, timeout=ck.n(900, 3000))
     bound = 4 * T_REQ + 1.5
     hist = {"cond": {}, "hang": 0, "failed_runs": 0, "leave_sent": 0}
@@ -157,8 +279,14 @@ def run(ck: Check):
         rp = {"scenario": sc, "what": what}
         rp.update(extra or {})
         ck.violation(f"{what} (scenario {sc['id']})", rp, signature=f"sim:{what[:80]}")
+    close_cases = []
     for sc, r in zip(scs, results):
         hist["cond"][sc["_cond"]] = hist["cond"].get(sc["_cond"], 0) + 1
+        for name, c in (r.get("consumers") or {}).items() if r.get("ok") else []:
+            if c.get("stop_tasks") and c.get("stop"):
+                raised = any(er.get("op") == "stop" for er in c.get("errors", []))
+                actual = "Escaped" if raised else "Completed" if c["stop"].get("returned") else "Hung"
+                close_cases.append((f"{sc['id']}/{name}", c["stop_tasks"], actual, sc))
         if not r.get("ok"):
             if "SimDeadlock" in r.get("error", ""):
                 hist["hang"] += 1
@@ -217,6 +345,8 @@ def run(ck: Check):
                     it["bad"] = rng_bad.choice(["str_value", "str_value", "str_key", "headers"])
                     n += 1
         pscs.append(sc)
+    for sc in pscs:
+        sc["obs_cancel"] = True
     pres = prodsim.run_scenarios(pscs, timeout=ck.n(600, 2400))
     for sc, r in zip(pscs, pres):
         hist["cond"]["producer-" + sc["_cond"]] = hist["cond"].get("producer-" + sc["_cond"], 0) + 1
@@ -228,6 +358,9 @@ def run(ck: Check):
             continue
         ck.count(key=("p", sc["id"], sc["seed"]), nontrivial=sc["_cond"] != "healthy")
         st = r.get("stop") or {}
+        if r.get("stop_tasks"):
+            close_cases.append((f"producer-{sc['id']}", r["stop_tasks"],
+                                "Hung" if st.get("timeout") else "Escaped" if st.get("exc") else "Completed", sc))
         if st.get("timeout"):
             viol(sc, "producer stop() did not return within the limit")
         if r.get("pending_tasks"):
@@ -238,6 +371,7 @@ def run(ck: Check):
             viol(sc, f"send() after stop() did not fail with the closed error ({r.get('after_stop_send')})")
         if r.get("after_stop_send_batch") in ("returned", "hang"):
             viol(sc, f"send_batch() after stop() did not fail with the closed error ({r.get('after_stop_send_batch')})")
+    close_correspondence(ck, close_cases)
     ck.extra["input_distribution"] = hist
     ck.obligation("correspondence:stop-paths-within-skeleton-bound", nbad == 0,
                   f"{nbad} stopping points violated the bound or left something running")
